@@ -653,3 +653,107 @@ func ruleOU8(c *Ctx) {
 		c.bad("<renderers>", "truncation-helpers", "-", "no truncation helper returning its input found")
 	}
 }
+
+// ------------------------------------------------------------------ OU9
+
+func init() {
+	register(&Rule{ID: "OU9", Min: 1, Run: ruleOU9,
+		Doc: "padding-measured-not-assumed: in the row formatters, the amount of padding that places the id column (the count of strings.Repeat) never derives from a width *budget* handed to a truncating helper (truncateToWidth/abbreviate): a truncated text may come out narrower than its budget (a wide glyph does not fit the last column), so its width has to be measured after truncation, not assumed"})
+}
+
+func ruleOU9(c *Ctx) {
+	trunc := map[*ssa.Function]bool{}
+	for _, n := range []string{"truncateToWidth", "abbreviate"} {
+		if f := c.ErgoFn(n); f != nil {
+			trunc[f] = true
+		}
+	}
+	if len(trunc) == 0 {
+		c.unk("ergo.truncateToWidth", "anchor", "-", "no truncating helper found")
+		return
+	}
+	n := 0
+	for _, f := range c.Fns {
+		if trunc[f] {
+			continue
+		}
+		var budgets []ssa.Value
+		for _, call := range callsIn(f) {
+			if cal := call.Common().StaticCallee(); cal != nil && trunc[cal] {
+				for i, a := range call.Common().Args {
+					if i == 0 {
+						continue // the text
+					}
+					if b, ok := a.Type().Underlying().(*types.Basic); ok && b.Info()&types.IsInteger != 0 {
+						if _, isConst := a.(*ssa.Const); !isConst {
+							budgets = append(budgets, a)
+						}
+					}
+				}
+			}
+		}
+		if len(budgets) == 0 {
+			continue
+		}
+		reps := callsNamed(f, "strings.Repeat")
+		for i, rep := range reps {
+			n++
+			cnt := rep.Common().Args[1]
+			bad := ""
+			for _, b := range budgets {
+				if arithDerives(cnt, b) {
+					bad = c.canon(b)
+				}
+			}
+			c.check(bad == "", c.Name(f), fmt.Sprintf("padding#%d", i+1), c.Pos(rep.Pos()), "padding count does not depend on a truncation budget",
+				"the padding before a column is computed from the budget given to a truncating helper ("+bad+") instead of the measured width of what was written: when a wide character does not fit the last column the text is one column short and the id leaves its column")
+		}
+	}
+	if n == 0 {
+		c.bad("<module>", "padding#0", "-", "no row formatter combining truncation and padding found")
+	}
+}
+
+// arithDerives: v is computed from src by integer arithmetic alone (+, -, phi, locals, conversions); a call on the way
+// (visibleLen(...), len(...)) is a measurement and ends the derivation.
+func arithDerives(v, src ssa.Value) bool {
+	seen := map[ssa.Value]bool{}
+	var walk func(x ssa.Value, d int) bool
+	walk = func(x ssa.Value, d int) bool {
+		if x == nil || d > 40 || seen[x] {
+			return false
+		}
+		if x == src {
+			return true
+		}
+		seen[x] = true
+		switch y := x.(type) {
+		case *ssa.BinOp:
+			return walk(y.X, d+1) || walk(y.Y, d+1)
+		case *ssa.Phi:
+			for _, e := range y.Edges {
+				if walk(e, d+1) {
+					return true
+				}
+			}
+		case *ssa.Convert:
+			return walk(y.X, d+1)
+		case *ssa.ChangeType:
+			return walk(y.X, d+1)
+		case *ssa.UnOp:
+			if y.Op == token.MUL {
+				if cell := cellOf(y.X); cell != nil {
+					for _, st := range cellStores(cell) {
+						if walk(st.Val, d+1) {
+							return true
+						}
+					}
+				}
+				return false
+			}
+			return walk(y.X, d+1)
+		}
+		return false
+	}
+	return walk(v, 0)
+}
